@@ -376,6 +376,15 @@ def setitem(I, ctx, obj, idx, v, node):
 
 
 def getslice(I, ctx, obj, lo, hi, node):
+    # an optional bound (None | int): `xs[:None]` is the whole sequence in Python
+    if isinstance(lo, Choice):
+        return I.split(ctx, lo, lambda sub, a: getslice(I, sub, obj, a, hi, node))
+    if isinstance(hi, Choice):
+        return I.split(ctx, hi, lambda sub, a: getslice(I, sub, obj, lo, a, node))
+    for bound in (lo, hi):
+        if bound is not None and concrete_int(bound) is None:
+            # a negative bound counts from the end in Python; not modelled: such a path must be shown unreachable
+            I.raise_if(ctx, simp(znum(b2i(bound)) < 0), UnwindLimit, 'negative-slice-bound@' + I.where(node))
     heap = ctx.heap
     seq = obj
     is_ref = isinstance(obj, (Ref, Snapshot))
